@@ -328,6 +328,23 @@ def req_can_see(viewer, target, objects):
     return f2
 
 
+class Raised:
+    """Marker: the implementation raised instead of answering."""
+
+    def __init__(self, e):
+        self.name = type(e).__name__
+        self.text = f"{type(e).__name__}: {e}"[:300]
+
+
+def guarded(f):
+    try:
+        return f()
+    except HarnessError:
+        raise
+    except Exception as e:  # a visibility query on valid constant inputs must answer
+        return Raised(e)
+
+
 class Acc:
     """Per-item accumulator (picklable dict at the end)."""
 
@@ -482,9 +499,15 @@ def eval_points(spec):
             ("visibleRegion", lambda: bool(region.containsPoint(pv))),
         ]
         for route, f in routes:
-            obs = f()
+            obs = guarded(f)
             acc.inc("evaluations")
-            if obs is None:
+            if isinstance(obs, Raised):
+                acc.violation(
+                    f"visibility-query-raises:{obs.name}:{kind}:{route}",
+                    f"viewer: {describe_viewer(spec)}\ntarget point {fmt(p)}, no occluders: {route} raised {obs.text}",
+                    {"type": "points", "spec": spec, "lat": list(lat), "route": route, "subset": []},
+                )
+            elif obs is None:
                 acc.violation(
                     f"requirement-classes:not-complementary:{kind}",
                     f"viewer: {describe_viewer(spec)}\nVisibilityRequirement and NonVisibilityRequirement give the same falsifiedBy "
@@ -521,9 +544,15 @@ def eval_points(spec):
             else:
                 rs.append(("requirement-classes", lambda: req_can_see(viewer, top, mixed)))
             for route, f in rs:
-                obs = f()
+                obs = guarded(f)
                 acc.inc("evaluations")
-                if obs is not None and obs != exp_s:
+                if isinstance(obs, Raised):
+                    acc.violation(
+                        f"visibility-query-raises:{obs.name}:{kind}:{route}",
+                        f"viewer: {describe_viewer(spec)}\ntarget point {fmt(p)}, occluder subset {list(S_idx)}: {route} raised {obs.text}",
+                        {"type": "points", "spec": spec, "lat": list(lat), "route": route, "subset": list(S_idx)},
+                    )
+                elif obs is not None and obs != exp_s:
                     report(route, obs, exp_s, p, lat, S_idx, f" (sight line {sl})")
     return acc.out()
 
@@ -660,8 +689,17 @@ def eval_object(case):
 
     vis = {}
     for S_idx in SUBSETS:
-        vis[S_idx] = bool(viewer.canSee(target, occludingObjects=tuple(occ_objs[i] for i in S_idx)))
+        got = guarded(lambda: bool(viewer.canSee(target, occludingObjects=tuple(occ_objs[i] for i in S_idx))))
         acc.inc("evaluations")
+        if isinstance(got, Raised):
+            acc.violation(
+                f"visibility-query-raises:{got.name}:{kind}:canSee-object",
+                f"viewer: {describe_viewer(spec)}\ntarget: {shape} {fmt(dims)} at {fmt(centre)} yaw/pitch/roll {tuple(typr)} deg ({label}), "
+                f"occluder subset {list(S_idx)}: canSee raised {got.text}",
+                dict(case, type="object", what="raises", subset=list(S_idx)),
+            )
+            return acc.out()
+        vis[S_idx] = got
     acc.inc("object_cases")
     acc.inc(f"object_class_{cls}")
     if affected:
@@ -755,10 +793,12 @@ def eval_object(case):
             continue
         mixed = vobj + [target] + [occ_objs[i] if i in S_idx else occ_off[i] for i in range(3)]
         if route == "can-see-operator":
-            obs = op_can_see(viewer, target, mixed)
+            obs = guarded(lambda: op_can_see(viewer, target, mixed))
         else:
-            obs = req_can_see(viewer, target, mixed)
+            obs = guarded(lambda: req_can_see(viewer, target, mixed))
         acc.inc("evaluations")
+        if isinstance(obs, Raised):
+            obs = "raised " + obs.text
         if obs is None or obs != vis[S_idx]:
             acc.violation(
                 f"route-disagreement:{route}:{kind}",
@@ -856,7 +896,7 @@ def program_cases(spec):
                         "text": "\n".join(head + [wall(occluding)] + lines) + "\n",
                         "expect_accept": acc_exp,
                         "why": f"point {pname} {fmt(p)}: view volume {cls}, wall occluding={occluding}, sight line {sl} => visible={vis}",
-                        "affected_point": True,
+                        "group": f"point:{pname}:{occluding}",
                         "p": [float(x) for x in p],
                         "occluding": occluding,
                     }
@@ -903,7 +943,7 @@ def program_cases(spec):
                         "expect_accept": acc_exp,
                         "why": f"object {oname} {shp} size {size:g} at {fmt(c)}: bounding ball vs view volume {cls}, wall occluding={occluding}, "
                         f"hidden={hidden} => visible={vis}",
-                        "affected_point": False,
+                        "group": f"object:{oname}:{occluding}",
                         "p": [float(x) for x in c],
                         "occluding": occluding,
                     }
@@ -924,11 +964,15 @@ def run_program(text):
             if "not visible from ego" in str(e):
                 return "reject", "InvalidScenarioError: " + str(e)
             return "error", "InvalidScenarioError: " + str(e)
+        except Exception as e:
+            return "raised", f"{type(e).__name__}: {e}"[:300]
         try:
             sc.generate(maxIterations=2, verbosity=0)
             return "accept", ""
         except RejectionException as e:
             return "reject", str(e)
+        except Exception as e:
+            return "raised", f"{type(e).__name__}: {e}"[:300]
 
 
 PROGRAM_PARTS = 6
@@ -940,20 +984,31 @@ def eval_programs(payload):
     cam, R, ang, vd = model_of(spec)
     kind = spec["kind"]
     affected = affected_by_defect_class(spec)
-    _, _, wdims = None, None, None
-    for i, pc in enumerate(program_cases(spec)):
-        if part is not None and i % PROGRAM_PARTS != part:
+    groups = []
+    passed = set()  # (group, form) that behaved as the reference says
+    for pc in program_cases(spec):
+        if pc["group"] not in groups:
+            groups.append(pc["group"])
+        if part is not None and groups.index(pc["group"]) % PROGRAM_PARTS != part:
             continue
         res, msg = run_program(pc["text"])
         acc.inc("evaluations")
         acc.inc("programs")
         if res == "error":
             raise HarnessError(f"C17 program does not compile: {msg}\n{pc['text']}")
+        if res == "raised":
+            acc.violation(
+                f"scenario:{pc['form']}:raises:{msg.split(':')[0]}:{kind}",
+                f"{pc['why']}\ncompiling / generating the all-constant program raised {msg}\n{pc['text']}",
+                {"type": "program", "spec": spec, "form": pc["form"], "text": pc["text"], "expect_accept": pc["expect_accept"]},
+            )
+            continue
         acc.flags.add(f"prog|{pc['form']}|{'A' if pc['expect_accept'] else 'R'}")
         if (res == "accept") != pc["expect_accept"]:
             sig = None
-            if pc["form"].startswith("second-"):
-                sig = f"visibility-requirement:occluders-dropped-after-first-observed-object"
+            if pc["form"].startswith("second-") and (pc["group"], pc["form"][len("second-") :]) in passed:
+                # the same requirement on the same target is handled correctly when it is the first one
+                sig = "visibility-requirement:occluders-dropped-after-first-observed-object"
             elif affected:
                 # explained by the point-target defect (directly, or through the centre shortcut)?
                 wc_l, wypr, wdims = (0.137, 0.45 * vd, 0.071), (3, 2, 5), (0.5 * vd, 0.2, 0.5 * vd)
@@ -969,6 +1024,8 @@ def eval_programs(payload):
                 f"{pc['why']}\nexpected scene generation to {'accept' if pc['expect_accept'] else 'reject'}, observed {res} {msg}\n{pc['text']}",
                 {"type": "program", "spec": spec, "form": pc["form"], "text": pc["text"], "expect_accept": pc["expect_accept"]},
             )
+        else:
+            passed.add((pc["group"], pc["form"]))
         if len(acc.samples) < 1:
             acc.samples.append({"program": pc["text"], "expect_accept": pc["expect_accept"], "why": pc["why"]})
     return acc.out()
